@@ -444,7 +444,12 @@ class Freshness:
             return AV("arr", "fresh")
         if isinstance(e, ast.IfExp):
             # `copy`-controlled stores: the documented copy=False contract is exempt; evaluate the default branch
-            if isinstance(e.test, ast.Name) and e.test.id == "copy":
+            kind = self._copy_test(fi, e.test, at)
+            if kind == "contract":
+                return ev(e.body)
+            if kind is not None and isinstance(e.orelse, ast.Name) and e.orelse.id == kind:
+                # `x.copy() if copy and isinstance(x, np.ndarray) else x`: with copy=True the else branch is reached
+                # only for values that are not arrays (nothing to share)
                 return ev(e.body)
             return join([ev(e.body), ev(e.orelse)])
         if isinstance(e, (ast.Tuple, ast.List, ast.Set)):
@@ -466,6 +471,38 @@ class Freshness:
         if isinstance(e, ast.Lambda):
             return SCALAR
         return AV("unknown", why=type(e).__name__)
+
+    def _copy_test(self, fi: FuncInfo, test: ast.expr, at, depth: int = 0) -> Optional[str]:
+        """'contract' when `test` is the caller's `copy` parameter itself (never re-bound on the way);
+        the name X when it is `copy and isinstance(X, np.ndarray)` with that parameter; None otherwise.
+        Local names bound once to such an expression are looked through."""
+        if depth > 4:
+            return None
+        flow = flow_of(fi.node)
+
+        def pure_param(nm: ast.Name) -> bool:
+            if nm.id != "copy" or "copy" not in fi.params or at is None:
+                return False
+            ds = flow.reaching(at, "copy")
+            return bool(ds) and all(d.kind == "param" for d in ds)
+
+        if isinstance(test, ast.Name):
+            if pure_param(test):
+                return "contract"
+            if at is not None and test.id != "copy":
+                ds = flow.reaching(at, test.id)
+                if len(ds) == 1 and ds[0].kind == "assign" and ds[0].value is not None and not ds[0].path and ds[0].node is not None:
+                    # the flag's own definition must see the un-rebound parameter too
+                    saved = at
+                    return Freshness._copy_test(self, fi, ds[0].value, ds[0].node, depth + 1)
+            return None
+        if isinstance(test, ast.BoolOp) and isinstance(test.op, ast.And) and len(test.values) == 2:
+            a, b = test.values
+            for (c, i) in ((a, b), (b, a)):
+                if isinstance(c, ast.Name) and pure_param(c) and isinstance(i, ast.Call) and dotted(i.func) == "isinstance" and len(i.args) == 2 and isinstance(i.args[0], ast.Name) \
+                        and "ndarray" in ast.unparse(i.args[1]):
+                    return i.args[0].id
+        return None
 
     def _is_basic_index(self, fi, idx, at, env, depth) -> bool:
         if isinstance(idx, ast.Slice):
